@@ -69,9 +69,9 @@ func init() {
 		return clusterCheckSched(prop, tier, p, []string{"leader_present", "op_acked", "restarted_node_up", "node_down"}, untimedAssumptions, nil, sp)
 	}
 	checks["C05"] = func(prop, tier string) int {
-		p := []plan{{"deposed3-d2", 30}, {"read3-d3", 60}, {"nvread5-d2", 100}}
+		p := []plan{{"deposed3-d2", 30}, {"read3-d3", 60}, {"nvread5-d2", 100}, {"minread5-d2", 30}}
 		if tier == "thorough" {
-			p = []plan{{"deposed3-d4", 600}, {"read3-d4", 600}, {"deposed3-d3", 120}, {"nvread5-d3", 300}}
+			p = []plan{{"deposed3-d4", 600}, {"read3-d4", 600}, {"deposed3-d3", 120}, {"nvread5-d3", 300}, {"minread5-d4", 200}}
 		}
 		sp := []schedPlan{{"read-newleader", 2, 40}}
 		if tier == "thorough" {
